@@ -23,6 +23,11 @@ func init() {
 			{ID: "C08.R3", Floor: 4, Doc: "count paired with successful CAS; Clear returns false without decrement when already clear", Run: c08r3},
 			{ID: "C08.R4", Floor: 6, Doc: "capacity, reserved id 0 and index ranges by construction", Run: c08r4},
 			{ID: "C08.R5", Floor: 2, Doc: "who-may-call: GetStream only from exec, Clear only from releaseStream", Run: c08r5},
+			{ID: "C08.R7", Floor: 10, Doc: "the allocator's words and counters (and every other field used with sync/atomic) are accessed through sync/atomic everywhere (=C17.R16)", Run: func(p *Program, r *Report) {
+				if atomicDiscipline(p, r) == 0 {
+					r.Unresolved("no field is accessed through sync/atomic")
+				}
+			}},
 			{ID: "C08.R6", Floor: 1, Doc: "GetStream reports exhaustion only after its scan visited every word (never from the lagging in-use counter)", Run: c08r6},
 		},
 	})
